@@ -25,6 +25,24 @@ CLAIMED = {
  "C03": dict(tech="deterministic simulation of a two-tier system: natively compiled XDP program as the kernel node (simulated kernel uptime clock) in front of the real userspace DHCP server, sharing real kernel maps; oracle = frame well-formedness parser + differential agreement with the userspace reply + PASS-means-unmodified + no answer once the userspace lease is gone",
    text="Seeded exploration of DHCP message histories (untagged/802.1Q/QinQ, IHL 5/6, padding and option-layout classes, direct and relayed) driven through bpf/dhcp_fastpath.c compiled natively and then through the real slow path, with the cache written by the real Loader/PoolManager/Server into real kernel maps created with the C-declared sizes, two clock domains, and pool/lease/DNS/server-id configurations. Sampling, not proof.",
    note="Native code generation instead of the BPF back end; XDP attach/driver/NIC are not modelled; 'expired in userspace' means the lease has left the lease table; pools larger than /20 are not materialised; needs CAP_BPF/root to create maps.", ref="§5 C03"),
+ "C10": dict(tech=TECH + "interval-overlap model checked step by step and by linearizability (porcupine) for concurrent callers, plus an independent resolver over the flushed NAT log",
+   text="Seeded exploration of allocate/deallocate/re-allocate histories from 1-3 concurrent callers (statement-level yields in nat/manager.go) over port-range/block-size configurations incl. non-dividing sizes and the 65535 edge, with the real nat.Logger (all formats, bulk and per-allocation, rotation, flush loop on the virtual clock) writing to a private file that an independent resolver reads back. Sampling, not proof.",
+   note="eBPF maps absent (the Go bookkeeping assigns blocks); log files are real files in a per-run temp dir; rotation compression and age cleanup are not driven.", ref="§5 C10"),
+ "C13": dict(tech=TECH + "snapshot equality at full-sync completion, push-order application per connected stream period, convergence after a fault-free bound",
+   text="Seeded exploration of add/update/delete histories on the active node with stream disconnects at any byte, lost and late responses, partitions, standby crash/restart and changes landing between snapshot and stream attach, using the real HASyncer handlers, SSE reader and back-off over a simulated HTTP transport. Sampling, not proof.",
+   note="HTTP/TCP replaced by an in-process RoundTripper that runs the peer's real http.Handler as a scheduler task; active-node crash and a mid-body cut of the full-sync JSON are not modelled; one pusher at a time.", ref="§5 C13"),
+ "C14": dict(tech=TECH + "timed monitor over the recorded health-event, failover-event, callback and role/state streams",
+   text="Seeded exploration of partner up/down windows around the threshold/delay boundaries, probe loss, operator commands in every state, callback ok/fail/slow and same-instant timer-vs-event orderings against the real FailoverController and HealthMonitor wired as cmd/bng does, probing a simulated partner. Sampling, not proof.",
+   note="Controller whose original role is active and non-200 partner replies are not driven; a recovery exactly at the expiry instant may go either way.", ref="§5 C14"),
+ "C17": dict(tech=TECH + "owner agreement across nodes, ranked-list laws, minimal-disruption law, single serving pool end to end when views agree",
+   text="Seeded exploration of 1-5 (thorough: 8) PeerPool nodes with generated node ids, per-node configuration orders, AddPeer/RemovePeer, partitions, crashes and probe loss, with the real forwarding/health code and HTTP handlers over the simulated transport. Sampling, not proof.",
+   note="Node ids are URL-host-safe strings; a peer set never contains both x and x:8081; the end-to-end clause is judged only while all live nodes share peer set and health view.", ref="§5 C17"),
+ "C12": dict(tech=TECH + "store-vs-memory agreement after restart and after failed store operations, announced-address application per watch delivery context, observational equality after JSON round trip",
+   text="Seeded exploration of allocate/renew/release histories on 1-3 real DistributedAllocator nodes (session and lease mode) over a simulated replicated store with crashes before/after every store call, clean stops, restarts over the store, every Query enumeration order, store failures at every call and delayed/duplicated/reordered watch notifications; PoolAllocator behind a failing store; JSON round trips of the allocators after every operation. Sampling, not proof.",
+   note="The store backend is the harness's (linearizable, a failed call has no effect); multi-writer double claims are C01/C17 territory and excluded; watch findings carry the delivery context (FIFO vs after-reorder/dup/local-write-race) in their fingerprint.", ref="§5 C12"),
+ "C20": dict(tech=TECH + "bijection model (key <-> subscriber) checked step by step and by linearizability (porcupine), forward/reverse lookup agreement after every operation",
+   text="Seeded exploration of allocate/release/load/register/unregister/create/remove/update histories from 1-4 callers over tiny tag ranges and id spaces against the real VLANAllocator, qinq.Mapper, pppoe.SessionManager (incl. id wrap-around and two sessions per MAC), state.Store, MemoryAllocationStore, subscriber.Manager indexes and the circuit-id key functions. Sampling, not proof.",
+   note="state.Store records never share a MAC or address (single-valued indexes by design); circuit-id keys are checked through the real key functions over a harness map; hash collisions of the 64-bit circuit-id hash are unreachable by sampling.", ref="§5 C20"),
 }
 NA = {
  "C06": "static relation between Go and C declarations (sizes, offsets, byte order, key derivation for all inputs): no schedule, clock, fault or history can change it, so it is not a simulation target",
